@@ -5,7 +5,7 @@ import json, os, shutil, subprocess, concurrent.futures as cf
 from . import base, tlc, flat
 
 # text atoms; those that travel as data (values 1-2, loop item 3, default 8) carry backslashes, group references and regex metacharacters: "emitted verbatim"
-WORD = {1: "  Alpha \\1 One ", 2: "Bra\\vo\\\\ $1", 3: "ca\\rl \\g<0> \\d+ (x", 4: "Delta", 5: "Echo:", 6: "fox Trot", 7: "Golf ", 8: "Ho\\tel \\2 [z", 9: "india>"}
+WORD = {1: "  Alpha \\1 One ", 2: "Bra\\vo\\\\ $1", 3: "ca\\rl \\g<0> \\d+ (x", 4: "Delta", 5: "Echo:", 6: "fox Trot", 7: "Golf ", 8: "Ho\\tel \\2 [z", 9: "india>", 11: "{'f': '", 12: "'}"}
 NSH = 8
 
 
@@ -63,6 +63,8 @@ def token(t):
 def value(v):
     if v["k"] == "val":
         return "".join(piece(x) for x in v["p"])
+    if v["k"] == "dval":                      # a dict item; str() of it is what the specification's pieces spell out
+        return {"f": "".join(piece(x) for x in v["p"])}
     return {"0": 0, "7": 7, "4": 4, "False": False, "None": None}[v["s"]]
 
 
